@@ -914,7 +914,7 @@ func c03LMTPCommit(c *Check) {
 	if fan != nil {
 		for _, pt := range rb.F.Points() {
 			nd := pt.Node()
-			if nd == nil || !posIn(fan.Body, nd.Pos()) {
+			if nd == nil || !within(fan.Body, nd) {
 				continue
 			}
 			for _, call := range callsAt(nd) {
